@@ -2,7 +2,25 @@
 """Re-insert tools/design_sec10.md (with a fresh status table) as section 10 of DESIGN.md."""
 import subprocess
 tbl = subprocess.check_output(['python3', '/verif/tools/mkstatus.py'], text=True)
-sec = open('/verif/tools/design_sec10.md').read().replace('STATUS_TABLE', tbl)
+import glob, json, os
+first, later, other, missed = [], [], [], []
+for m in sorted(glob.glob('/verif/seeded/*/meta.json')):
+    d = json.load(open(m)); n = os.path.basename(os.path.dirname(m))
+    if d['check'].get('caught') and 'history' not in d:
+        first.append(n)
+    elif d['check'].get('caught'):
+        later.append('%s (%s)' % (n, d['history'].split(';')[0][:230]))
+    elif d['check'].get('caught_by_other_check'):
+        other.append('%s (reported by %s: %s)' % (n, d['check']['caught_by_other_check'], d.get('history', '')[:200]))
+    else:
+        missed.append('%s (%s)' % (n, d.get('needs_to_manifest', '')[:200]))
+summ = '* **%d seeded changes kept** (two per property, independent sub-agents).\n' % (len(first) + len(later) + len(other) + len(missed))
+summ += '* reported at the first run (%d): %s.\n' % (len(first), ', '.join(first))
+summ += '* reported after the check was strengthened (%d):\n' % len(later) + ''.join('  * %s\n' % x for x in later)
+if other:
+    summ += '* not visible to the property\'s own check, reported by a sibling check (%d):\n' % len(other) + ''.join('  * %s\n' % x for x in other)
+summ += ('* still missed (%d):\n' % len(missed) + ''.join('  * %s\n' % x for x in missed)) if missed else '* none is missed at the time of writing.\n'
+sec = open('/verif/tools/design_sec10.md').read().replace('STATUS_TABLE', tbl).replace('SEED_SUMMARY', summ)
 p = '/verif/DESIGN.md'
 s = open(p).read()
 bar = '-' * 99
